@@ -759,6 +759,11 @@ impl<const LEVELS: usize> OrderBook<LEVELS> {
     ) {
         let mut order_entry = self.orders[order_id];
 
+        // Requests to move an order off the tick grid are ignored
+        if new_price.is_some_and(|p| p % self.tick_size != 0) {
+            return;
+        }
+
         if order_entry.order.status == Status::Active {
             match (new_price, new_vol) {
                 (None, None) => (),
